@@ -18,14 +18,13 @@ func verifC08sameF(a, b float64) bool {
 	return verifOr(verifSame(a, b), verifAnd(a != a, b != b))
 }
 
-// VerifC08_CscalarSame: Same(a, b) is a == b or both are NaNs in the sense of
-// cmplx.IsNaN (a NaN part and no infinite part); symmetric; equal values are
-// the same.
+// VerifC08_CscalarSame: Same(a, b) is a == b or both have a NaN part (after fix
+// 00ec033 a value with a NaN part and an infinite part counts as NaN too, so
+// that Same is reflexive); symmetric; equal values are the same.
 func VerifC08_CscalarSame() {
 	a, b := verifC08c("a"), verifC08c("b")
 	nan := func(z complex128) bool {
-		inf := verifOr(math.IsInf(real(z), 0), math.IsInf(imag(z), 0))
-		return verifAnd(verifOr(real(z) != real(z), imag(z) != imag(z)), verifNot(inf))
+		return verifOr(real(z) != real(z), imag(z) != imag(z))
 	}
 	eq := verifAnd(real(a) == real(b), imag(a) == imag(b))
 	verifAssert(Same(a, b) == verifOr(eq, verifAnd(nan(a), nan(b))), "Same = equal or both NaN")
